@@ -133,16 +133,16 @@ Definition clean (dn : list presp) (ms : list bool) : parser := mkParser MHead N
    end-of-input turns what is pending into exactly the expected response. *)
 Lemma parse_msg : forall i e dn ms,
   let syms := fst (handle3 true e) in
-  fold_left pstep (tag i syms) (clean dn (x_head e :: ms)) = clean (expected i e :: dn) ms
+  fold_left pstep (tag i syms) (clean dn (x_nobody e :: ms)) = clean (expected i e :: dn) ms
   \/ (snd (handle3 true e) = true /\
-      pfinal true (fold_left pstep (tag i syms) (clean dn (x_head e :: ms))) = rev (expected i e :: dn)).
+      pfinal true (fold_left pstep (tag i syms) (clean dn (x_nobody e :: ms))) = rev (expected i e :: dn)).
 Proof.
   intros i e dn ms. unfold handle3, expected. destruct (classify e) as [| |d] eqn:C; cbn [fst snd].
   - (* 502 *)
-    left. unfold clean. cbn. destruct (x_head e); cbn; reflexivity.
+    left. unfold clean, x_nobody. destruct (x_head e), (x_connect e); cbn; reflexivity.
   - (* complete relay *)
     unfold relay_framing, body_syms, relay_framing.
-    destruct (x_head e) eqn:Hh.
+    destruct (x_nobody e) eqn:Hh.
     + left. unfold clean. cbn. reflexivity.
     + destruct (q_framing (x_resp e)) eqn:F.
       * (* Content-Length *)
@@ -150,8 +150,8 @@ Proof.
         destruct (q_body (x_resp e)) as [|b body] eqn:B.
         { cbn. reflexivity. }
         change (pstep (mkParser MHead None [] [] dn (false :: ms))
-                  (i, WHead (mkHead (HRelay (q_status (x_resp e)) true) (x_id e) (CCL (List.length (b :: body))))))
-          with (mkParser (MCL (List.length (b :: body))) (Some (mkHead (HRelay (q_status (x_resp e)) true) (x_id e) (CCL (List.length (b :: body))))) [] [i] dn ms).
+                  (i, WHead (mkHead (relay_kind e) (x_id e) (CCL (List.length (b :: body))))))
+          with (mkParser (MCL (List.length (b :: body))) (Some (mkHead (relay_kind e) (x_id e) (CCL (List.length (b :: body))))) [] [i] dn ms).
         rewrite fold_cl by discriminate. f_equal. f_equal. f_equal.
         { now rewrite app_nil_r, rev_involutive. }
         { rewrite map_length. rewrite repeat_app_cons. cbn [app]. rewrite app_nil_r.
@@ -160,8 +160,8 @@ Proof.
       * (* chunked *)
         left. unfold clean. rewrite tag_cons. cbn [fold_left].
         change (pstep (mkParser MHead None [] [] dn (false :: ms))
-                  (i, WHead (mkHead (HRelay (q_status (x_resp e)) true) (x_id e) CChunked)))
-          with (mkParser MChunkHdr (Some (mkHead (HRelay (q_status (x_resp e)) true) (x_id e) CChunked)) [] [i] dn ms).
+                  (i, WHead (mkHead (relay_kind e) (x_id e) CChunked)))
+          with (mkParser MChunkHdr (Some (mkHead (relay_kind e) (x_id e) CChunked)) [] [i] dn ms).
         rewrite tag_app, fold_left_app.
         rewrite fold_chunks by apply pieces_nonempty. cbn [tag map fold_left].
         cbn [pstep pm cur_head cur_body cur_tags done meths]. unfold finish. cbn [cur_head cur_body cur_tags done meths].
@@ -172,11 +172,11 @@ Proof.
           rewrite repeat_app_cons. cbn [app]. rewrite app_nil_r.
           change (i :: i :: repeat i k) with (repeat i (S (S k))). apply rev_repeat. }
       * (* close-delimited: the proxy closes *)
-        right. split; [unfold asks_close; rewrite Hh, F; cbn; now rewrite orb_true_r|].
+        right. split; [unfold asks_close; rewrite Hh, F; cbn [negb andb]; rewrite orb_true_r; reflexivity|].
         unfold clean. rewrite tag_cons. cbn [fold_left].
         change (pstep (mkParser MHead None [] [] dn (false :: ms))
-                  (i, WHead (mkHead (HRelay (q_status (x_resp e)) true) (x_id e) CClose)))
-          with (mkParser MClose (Some (mkHead (HRelay (q_status (x_resp e)) true) (x_id e) CClose)) [] [i] dn ms).
+                  (i, WHead (mkHead (relay_kind e) (x_id e) CClose)))
+          with (mkParser MClose (Some (mkHead (relay_kind e) (x_id e) CClose)) [] [i] dn ms).
         rewrite fold_close. unfold pfinal. cbn [pm]. unfold finish. cbn [done cur_head cur_body cur_tags meths]. cbn [rev].
         f_equal. f_equal. f_equal.
         { now rewrite app_nil_r, rev_involutive. }
@@ -188,9 +188,11 @@ Proof.
   - (* partial: head, some body bytes, then the repaired proxy closes *)
     right. split; [now rewrite orb_true_r|].
     unfold classify in C.
-    destruct (x_out e) as [| |k|]; try discriminate.
+    destruct (x_out e) as [| | |k|]; try discriminate.
+    destruct (x_connect e) eqn:Hc; [discriminate|].
     destruct (k <? q_headlen (x_resp e)); [discriminate|].
-    destruct (x_head e) eqn:Hh; [discriminate|].
+    destruct (x_head e) eqn:Hh0; [discriminate|].
+    assert (Hh : x_nobody e = false) by (unfold x_nobody; now rewrite Hh0, Hc).
     unfold relay_framing, body_syms, relay_framing. rewrite Hh.
     destruct (q_framing (x_resp e)) eqn:F; try discriminate.
     + (* Content-Length *)
@@ -202,8 +204,8 @@ Proof.
       unfold clean. rewrite tag_cons. cbn [fold_left].
       destruct (List.length (q_body (x_resp e))) as [|n] eqn:Ln; [lia|].
       change (pstep (mkParser MHead None [] [] dn (false :: ms))
-                (i, WHead (mkHead (HRelay (q_status (x_resp e)) true) (x_id e) (CCL (S n)))))
-        with (mkParser (MCL (S n)) (Some (mkHead (HRelay (q_status (x_resp e)) true) (x_id e) (CCL (S n)))) [] [i] dn ms).
+                (i, WHead (mkHead (relay_kind e) (x_id e) (CCL (S n)))))
+        with (mkParser (MCL (S n)) (Some (mkHead (relay_kind e) (x_id e) (CCL (S n)))) [] [i] dn ms).
       rewrite fold_cl_partial by exact Ld.
       unfold pfinal. cbn [pm]. unfold finish. cbn [done cur_head cur_body cur_tags meths]. cbn [rev].
       destruct (S n - List.length (firstn j (q_body (x_resp e)))) eqn:Z; [lia|].
@@ -218,8 +220,8 @@ Proof.
       clear C.
       unfold clean. rewrite tag_cons. cbn [fold_left].
       change (pstep (mkParser MHead None [] [] dn (false :: ms))
-                (i, WHead (mkHead (HRelay (q_status (x_resp e)) true) (x_id e) CChunked)))
-        with (mkParser MChunkHdr (Some (mkHead (HRelay (q_status (x_resp e)) true) (x_id e) CChunked)) [] [i] dn ms).
+                (i, WHead (mkHead (relay_kind e) (x_id e) CChunked)))
+        with (mkParser MChunkHdr (Some (mkHead (relay_kind e) (x_id e) CChunked)) [] [i] dn ms).
       rewrite app_nil_r. rewrite fold_chunks by apply pieces_nonempty.
       unfold pfinal. cbn [pm]. unfold finish. cbn [done cur_head cur_body cur_tags meths]. cbn [rev].
       f_equal. f_equal. f_equal.
@@ -236,13 +238,13 @@ Proof. reflexivity. Qed.
 
 Lemma run_from : forall es i dn,
   let '(st, c) := conn_stream true i es in
-  pfinal c (fold_left pstep st (clean dn (map x_head es))) = rev dn ++ expected_from i (served3 es)
+  pfinal c (fold_left pstep st (clean dn (map x_nobody es))) = rev dn ++ expected_from i (served3 es)
   /\ c = existsb closes3 es.
 Proof.
   induction es as [|e es IH]; intros i dn.
   - cbn [conn_stream map fold_left served3 expected_from existsb]. rewrite pfinal_clean. now rewrite app_nil_r.
   - cbn [conn_stream map served3 existsb].
-    pose proof (parse_msg i e dn (map x_head es)) as PM. cbv zeta in PM.
+    pose proof (parse_msg i e dn (map x_nobody es)) as PM. cbv zeta in PM.
     assert (Hc : closes3 e = snd (handle3 true e)) by reflexivity. rewrite Hc. clear Hc.
     destruct (handle3 true e) as [syms cl] eqn:H3. cbn [fst snd] in *.
     destruct cl.
@@ -330,46 +332,54 @@ Qed.
 (* pre-head failures *)
 Lemma classify_fail_iff : forall e,
   classify e = UFail <->
-  x_out e = ORefused \/ x_out e = OGarbage \/ exists k, x_out e = OCut k /\ k < q_headlen (x_resp e).
+  x_out e = ORefused \/ x_out e = OTimeout \/ x_out e = OGarbage \/
+  exists k, x_out e = OCut k /\ x_connect e = false /\ k < q_headlen (x_resp e).
 Proof.
-  intro e. unfold classify. destruct (x_out e) as [| |k|]; split; intro H; try discriminate; auto.
-  - destruct H as [H|[H|[k [H _]]]]; discriminate.
-  - destruct (k <? q_headlen (x_resp e)) eqn:L.
-    + right. right. exists k. split; [reflexivity|]. now apply Nat.ltb_lt.
+  intro e. unfold classify. destruct (x_out e) as [| | |k|]; split; intro H; try discriminate; auto.
+  - destruct H as [H|[H|[H|[k [H _]]]]]; discriminate.
+  - destruct (x_connect e) eqn:Hc; [discriminate|].
+    destruct (k <? q_headlen (x_resp e)) eqn:L.
+    + right. right. right. exists k. repeat split. now apply Nat.ltb_lt.
     + destruct (x_head e); [discriminate|].
       destruct (q_framing (x_resp e)); try discriminate;
         match goal with H : (if ?c then _ else _) = _ |- _ => destruct c; discriminate end.
-  - destruct H as [H|[H|[k' [H L]]]]; try discriminate. inversion H; subst k'.
-    apply Nat.ltb_lt in L. now rewrite L.
+  - destruct H as [H|[H|[H|[k' [H [Hc L]]]]]]; try discriminate. inversion H; subst k'.
+    apply Nat.ltb_lt in L. now rewrite Hc, L.
 Qed.
 
 Lemma pre_head_is_502 : forall fx e,
   classify e = UFail ->
-  handle3 fx e = ([WHead (mkHead (H502 true true) (x_id e) (if x_head e then CNone else CCL 0))], x_reqclose e).
+  handle3 fx e = ([WHead (mkHead (H502 true true) (x_id e) (if x_head e then CNone else CCL 0))],
+                  if x_connect e then false else x_reqclose e).
 Proof. intros fx e H. unfold handle3. now rewrite H. Qed.
 
+Definition stays_open_after_502 (e : exch3) : Prop := x_connect e = true \/ x_reqclose e = false.
+
+Lemma stays_open_flag : forall e, stays_open_after_502 e -> (if x_connect e then false else x_reqclose e) = false.
+Proof. intros e [H|H]; rewrite H; [reflexivity|now destruct (x_connect e)]. Qed.
+
 Lemma after_502_stream : forall fx i e es,
-  classify e = UFail -> x_reqclose e = false ->
+  classify e = UFail -> stays_open_after_502 e ->
   conn_stream fx i (e :: es) =
     (tag i [WHead (mkHead (H502 true true) (x_id e) (if x_head e then CNone else CCL 0))] ++ fst (conn_stream fx (S i) es),
      snd (conn_stream fx (S i) es)).
 Proof.
-  intros fx i e es H Hc. cbn [conn_stream]. rewrite (pre_head_is_502 fx e H), Hc.
+  intros fx i e es H Hc. cbn [conn_stream]. rewrite (pre_head_is_502 fx e H), (stays_open_flag e Hc).
   now destruct (conn_stream fx (S i) es).
 Qed.
 
 Lemma after_502_view : forall e es,
-  classify e = UFail -> x_reqclose e = false ->
+  classify e = UFail -> stays_open_after_502 e ->
   fst (client_view true (e :: es)) = expected 0 e :: expected_from 1 (served3 es)
   /\ p_state (expected 0 e) = PComplete.
 Proof.
   intros e es H Hc. rewrite client_view_is_spec. cbn [fst spec_view served3].
-  assert (X : closes3 e = false) by (unfold closes3; now rewrite (pre_head_is_502 true e H)).
+  assert (X : closes3 e = false) by (unfold closes3; rewrite (pre_head_is_502 true e H); exact (stays_open_flag e Hc)).
   rewrite X. cbn [expected_from]. split; [reflexivity|]. rewrite expected_state. now rewrite H.
 Qed.
 
 Lemma after_502_all : forall e es,
-  classify e = UFail -> x_reqclose e = false ->
+  classify e = UFail -> stays_open_after_502 e ->
   (forall fx i, conn_stream fx i (e :: es) =
      (tag i [WHead (mkHead (H502 true true) (x_id e) (if x_head e then CNone else CCL 0))]
         ++ fst (conn_stream fx (S i) es),
@@ -379,6 +389,78 @@ Lemma after_502_all : forall e es,
 Proof.
   intros e es H Hc. split; [intros fx i; exact (after_502_stream fx i e es H Hc)|exact (after_502_view e es H Hc)].
 Qed.
+
+(* every dial outcome of a CONNECT that is not a success: 502, connection kept *)
+Lemma connect_dial_failure : forall fx e,
+  x_connect e = true -> (x_out e = ORefused \/ x_out e = OTimeout) ->
+  handle3 fx e = ([WHead (mkHead (H502 true true) (x_id e) (if x_head e then CNone else CCL 0))], false).
+Proof.
+  intros fx e Hc Ho. rewrite pre_head_is_502; [now rewrite Hc|].
+  apply classify_fail_iff. destruct Ho as [Ho|Ho]; auto.
+Qed.
+
+(* ---------------------------------------------------------------- the Warning header *)
+
+Lemma hexdigit_ok : forall n, n < 16 ->
+  Ascii.eqb (hexdigit n) DQ = false /\ Ascii.eqb (hexdigit n) BS = false /\ qdtext (hexdigit n) = true.
+Proof.
+  intros n H. do 16 (destruct n as [|n]; [vm_compute; auto|]). lia.
+Qed.
+
+Lemma scan_quote_char : forall c rest,
+  scan_qs false (quote_char c ++ rest) = scan_qs false rest.
+Proof.
+  intros c rest. unfold quote_char.
+  destruct (Ascii.eqb c DQ) eqn:E1; [reflexivity|].
+  destruct (Ascii.eqb c BS) eqn:E2; [reflexivity|].
+  destruct (qdtext c && negb (nat_of_ascii c =? 9))%bool eqn:E3.
+  - apply andb_true_iff in E3 as [Q _]. cbn [app scan_qs]. now rewrite E1, E2, Q.
+  - pose proof (nat_ascii_bounded c) as B.
+    assert (H1 : nat_of_ascii c / 16 < 16) by (apply Nat.div_lt_upper_bound; lia).
+    assert (H2 : nat_of_ascii c mod 16 < 16) by (apply Nat.mod_upper_bound; lia).
+    destruct (hexdigit_ok _ H1) as (A1 & A2 & A3). destruct (hexdigit_ok _ H2) as (B1 & B2 & B3).
+    unfold hex_hi, hex_lo. cbn [app]. cbn [scan_qs].
+    change (Ascii.eqb BS DQ) with false. change (Ascii.eqb BS BS) with true. cbv iota.
+    change (qpchar "x") with true. cbv iota.
+    now rewrite A1, A2, A3, B1, B2, B3.
+Qed.
+
+Lemma scan_quote_body : forall x rest,
+  scan_qs false (flat_map quote_char x ++ DQ :: rest) = Some rest.
+Proof.
+  induction x as [|c x IH]; intro rest; [reflexivity|].
+  cbn [flat_map]. rewrite <- app_assoc, scan_quote_char. apply IH.
+Qed.
+
+Lemma warning_prefix : forall tail,
+  warning_ok (list_ascii_of_string "199 ""martian"" " ++ DQ :: tail) =
+  match scan_qs false tail with
+  | Some [] => true
+  | Some (s3 :: q2 :: rest3) =>
+      if (Ascii.eqb s3 SP && Ascii.eqb q2 DQ)%bool then
+        match scan_qs false rest3 with Some [] => true | _ => false end
+      else false
+  | _ => false
+  end.
+Proof. intro tail. vm_compute. reflexivity. Qed.
+
+Lemma warning_value_wellformed : forall errtext date, warning_ok (warning_value errtext date) = true.
+Proof.
+  intros e d. unfold warning_value, go_quote.
+  set (b1 := flat_map quote_char e). set (b2 := flat_map quote_char d).
+  assert (H1 : scan_qs false (b1 ++ DQ :: SP :: DQ :: b2 ++ [DQ]) = Some (SP :: DQ :: b2 ++ [DQ])) by apply scan_quote_body.
+  assert (H2 : scan_qs false (b2 ++ [DQ]) = Some []) by apply scan_quote_body.
+  replace (list_ascii_of_string "199 ""martian"" " ++ (DQ :: b1 ++ [DQ]) ++ SP :: DQ :: b2 ++ [DQ])
+    with (list_ascii_of_string "199 ""martian"" " ++ DQ :: b1 ++ DQ :: SP :: DQ :: b2 ++ [DQ])
+    by (cbn [app]; now rewrite <- app_assoc).
+  clearbody b1 b2. rewrite warning_prefix, H1.
+  change (Ascii.eqb SP SP && Ascii.eqb DQ DQ)%bool with true. cbv iota. now rewrite H2.
+Qed.
+
+(* an unescaped quote inside the text breaks the grammar: the checker notices *)
+Lemma unquoted_text_rejected :
+  warning_ok (list_ascii_of_string "199 ""martian"" ""malformed HTTP response ""SSH-2.0"""" ""Thu, 01 Jan 1970 00:00:00 GMT""") = false.
+Proof. vm_compute. reflexivity. Qed.
 
 (* ---------------------------------------------------------------- oracle *)
 
@@ -425,6 +507,11 @@ Proof.
   - intro H. inversion H; subst. now split.
 Qed.
 
+Lemma c03_ok_raw_iff : forall es raws c,
+  c03_ok_raw es (raws, c) = true <->
+  (map observe raws, c) = (map project (fst (spec_view es)), snd (spec_view es)).
+Proof. intros. unfold c03_ok_raw. cbn [fst snd]. apply c03_ok_iff. Qed.
+
 Lemma model_obs_ok : forall es, c03_ok es (model_obs true es) = true.
 Proof.
   intro es. apply c03_ok_iff. unfold model_obs. rewrite client_view_is_spec. reflexivity.
@@ -433,10 +520,10 @@ Qed.
 (* ---------------------------------------------------------------- refutation for the unrepaired code *)
 
 Definition d2_first : exch3 :=
-  mkEx3 1 false false (OCut 52)
+  mkEx3 1 false false false (OCut 52)
         (mkResp3 200 FCL (list_ascii_of_string "abcdefghij") [] false 49) [].
 Definition d2_second : exch3 :=
-  mkEx3 2 false false OOk
+  mkEx3 2 false false false OOk
         (mkResp3 200 FCL (list_ascii_of_string "NEXT!") [] false 48) [].
 
 Lemma d2_desync :
